@@ -39,11 +39,15 @@ WS = ['%s %s', '%s  %s', ' %s %s', '%s %s ', '%s%s']
 
 def call(value, spec):
     from oslo_utils import specs_matcher
-    try:
-        r = specs_matcher.match(value, spec)
-        return ('ret', r)
-    except Exception as e:
-        return ('raises', type(e).__name__)
+    out = []
+    for _ in (1, 2):          # asked twice: the answer must not depend on earlier calls
+        try:
+            out.append(('ret', specs_matcher.match(value, spec)))
+        except Exception as e:
+            out.append(('raises', type(e).__name__))
+    if out[0] != out[1]:
+        return ('raises', 'UnstableAnswer:%r-then-%r' % (out[0], out[1]))
+    return out[0]
 
 
 def judge(acc, value, spec, want, kind):
